@@ -182,6 +182,15 @@ def resigned_variants():
         out["service_claim_%s_sig_by_other" % nm] = dict(good, sig=_sign(SK["C"], good["id"]))
         out["service_claim_%s_sig_arbitrary" % nm] = dict(good, sig="ab" * 64)
         out["service_claim_%s_id_arbitrary" % nm] = dict(good, id="cd" * 32)
+    # created_at 0 (which the event library silently replaces by the relay's clock), id and signature computed over the clock's second:
+    # the object as sent does not hash to its id
+    from ..env import CLOCK
+
+    e = copy.deepcopy(b["plain"])
+    e["created_at"] = int(CLOCK.now)
+    good = resign(e, "A")
+    out["created_at_0_hashed_over_now"] = dict(good, created_at=0)
+    out["created_at_false_hashed_over_now"] = dict(good, created_at=False)
     e = copy.deepcopy(b["plain"])
     e["content"] = "other"
     out["resigned_sig_nonhex_lower"] = dict(resign(e, "A"), sig="gh" * 64)
